@@ -595,7 +595,7 @@ def run(ctx):
             check_cases(ctx, [e['witness']], stats=False)
     check_cases(ctx, corpus_cases(), stats=False)
     if ctx.quick():
-        cases = [gen_case(ctx.rng, big=(i % 40 == 39)) for i in range(2600)]
+        cases = [gen_case(ctx.rng, big=(i % 50 == 49)) for i in range(2000)]
         check_cases(ctx, cases)
     else:
         from .c05 import merge_worker
